@@ -6,7 +6,7 @@
 #include "engine.h"
 
 const char *CHK_RULE = "one case = one stream of 2..12 generated lines (valid forms, implicit writes, every malformed class, over-long, aborted, LF/CRLF/stray CR) run once as a "
-                       "stream and once line by line on fresh parsers (object memory alternately zero- and garbage-filled); non-trivial = stream with >= 2 non-blank lines; distinct "
+                       "stream and once line by line on freshly initialised parsers (object memory zero-filled, garbage-filled, or the previous object re-initialised with cat_init); non-trivial = stream with >= 2 non-blank lines; distinct "
                        "by (sequence of reference line classes incl. newline style, table size)";
 
 static prng_t HA;
@@ -76,6 +76,18 @@ static bool run_stream(int fillmode, const uint8_t *vars)
         return false;
 }
 
+static void dirty_object(void)
+{
+        if (!W.at) return;
+        units_reset();
+        POLICY = policy; VPOLICY = vpolicy; ON_READ = NULL; ON_UNIT = NULL;
+        const struct cat_command *c = W.cmd[rn(W.ncmds)];
+        in_reset(); in_puts(chance(50) ? "AT" : "A"); if (chance(70)) { in_puts(c->name); in_puts(chance(50) ? "=12,\"x" : chance(50) ? "?" : ""); } if (chance(30)) in_puts("\r\n");
+        INPOS = 0; pr_seed(&HA, 99, rnd());
+        for (unsigned i = 0, n = rn(40); i < n; i++) { if (chance(15)) (void)cat_trigger_unsolicited_event(W.at, W.cmd[rn(W.ncmds)], chance(50) ? CAT_CMD_TYPE_READ : CAT_CMD_TYPE_TEST); (void)svc(); }
+        hold_pending = false;
+        CNT("reinitialised_dirty_objects");
+}
 static uint8_t all_in[INCAP]; static size_t all_len; static uint8_t seq_out[1 << 16]; static size_t seq_n; static uint8_t cat_out[1 << 16]; static size_t cat_n;
 void chk_describe(FILE *f)
 {
@@ -131,10 +143,12 @@ void chk_run_case(uint64_t seed, long c, bool is_sweep)
         for (size_t i = 0; i < all_len && !case_failed(); i++) {
                 if (all_in[i] != '\n') continue;
                 size_t ll = i + 1 - ls;
+                if (li % 3 == 2) { solo_line = li; dirty_object(); }       /* leave the object that is about to be re-initialised in the middle of a line, with events queued, possibly held */
                 memcpy(INB, all_in + ls, ll); INLEN = ll;
-                solo_line = li; seed_line(li);
+                solo_line = li;
+                seed_line(li);
                 out_reset();
-                if (!run_stream(li & 1, li < nsnap && snap[li] ? snap[li] : v0)) { inconclusive("solo run did not reach quiescence"); solo_line = -1; return; }
+                if (!run_stream(li % 3 == 2 ? 3 : (li & 1), li < nsnap && snap[li] ? snap[li] : v0)) {      /* fresh zeroed / fresh garbage-filled / the previous line's object re-initialised with cat_init */ inconclusive("solo run did not reach quiescence"); solo_line = -1; return; }
                 if (cat_n + OUTN <= sizeof cat_out) { memcpy(cat_out + cat_n, OUTB, OUTN); cat_n += OUTN; }
                 ls = i + 1; li++;
         }
